@@ -239,7 +239,26 @@ def guarded(fn, seconds):
         signal.alarm(0)
 
 
+def passive_callback(log):
+    """A documented argument of the SA placer; this one only records what it is shown."""
+    def cb(iteration_count, placements, cost, acceptance_rate, temperature, distance_limit):
+        log.append(len(placements))
+    return cb
+
+
+def run_stress(c, per_cfg_s):
+    """Python-kernel annealing only (extreme net weights / very low efforts): outcome of place()."""
+    vr, nets, m, cs = build(c)
+    out = OrderedDict()
+    out["sa_py"] = guarded(lambda: sa_algorithm.place(
+        vr, nets, m, cs, effort=c["effort"], random=pyrandom.Random(c["seed"]), kernel=PythonKernel,
+        kernel_kwargs=dict(no_warn=True)), per_cfg_s)
+    return dict(out=out, aux={})
+
+
 def run_case(c, per_cfg_s):
+    if c.get("mode") == "stress":
+        return run_stress(c, per_cfg_s)
     out = OrderedDict()
     aux = {}
 
@@ -295,6 +314,16 @@ def run_case(c, per_cfg_s):
     out["sa_py"] = guarded(lambda: sa_algorithm.place(
         vr, nets, m, cs, effort=c["effort"], random=pyrandom.Random(c["seed"]), kernel=PythonKernel,
         kernel_kwargs=dict(no_warn=True)), per_cfg_s)
+    #   both kernels again with a passive on_temperature_change callback
+    for name, kern, kw in (("sa_c_cb", CKernel, {}), ("sa_py_cb", PythonKernel, dict(no_warn=True))):
+        if kern is None:
+            continue
+        vr, nets, m, cs = fresh()
+        cblog = []
+        out[name] = guarded(lambda: sa_algorithm.place(
+            vr, nets, m, cs, effort=c["effort"], random=pyrandom.Random(c["seed"]), kernel=kern,
+            kernel_kwargs=kw, on_temperature_change=passive_callback(cblog)), per_cfg_s)
+        aux[name + "_calls"] = len(cblog)
     # 9 simulated annealing with no effort (trivial: the initial placement is returned), scripted shuffles
     vr, nets, m, cs = fresh()
     sr = ScriptedRandom(c["seed"] + 1)
